@@ -4,6 +4,7 @@ A behaviour-preserving refactoring of dig (REFACTOR/patch.diff, note.md in the w
 1. confirm in a fresh scratch worktree that the suite passes as the baseline with the patch;
 2. apply it to /repo, run every quick check, undo it;  3. keep it under /verif/seeded/harmless/<name>/ with the outcome."""
 import json, os, subprocess, sys, shutil
+os.environ.setdefault("VERIF_EVIDENCE_DIR", "/tmp/verif-evidence-seeded")   # not the committed evidence
 env = dict(os.environ, GOFLAGS="-mod=mod", GOPROXY="off", GOSUMDB="off", GOTOOLCHAIN="local")
 wt, name = sys.argv[1], sys.argv[2]
 def sh(cmd, cwd=None):
